@@ -371,6 +371,10 @@ def r4(ck, rule="C02-R4"):
                       "%d direct matches() probes, %d loops that call matches(), %d find() scans" % (len(probes), len(loops), len(finds)), tah.where()):
         return
     pbb, probe = probes[0]
+    if not ck.require(len(probe["args"]) == 3, rule, "matches(needle, haystack, position)",
+                      "matches() takes %d arguments: the comparison depends on something besides the hunk's lines, the file's lines and the "
+                      "position" % len(probe["args"]), tah.where(probe)):
+        return
     needle, hay, T = (df.operand_expr(tah, a) for a in probe["args"])
     if finds:
         r4_find_form(ck, rule, tah, finds[0], needle, hay, T, pbb)
